@@ -1043,19 +1043,22 @@ func main() {
 			keys = append(keys, cv.v.Key)
 		}
 	}
-	for _, m := range det.resultMismatch {
-		k := "nondeterministic-result:" + m.fams
-		if groups[k] == nil {
-			groups[k] = &group{key: k}
-			keys = append(keys, k)
+	// Outcomes that are stable within a process (they passed the two sequential runs)
+	// but differ between processes under one and the same schedule depend on something
+	// the process is born with (a hash seed, an address, the GC's timing). C19 says
+	// nothing about that, so it is reported as a note and never as a violation; what it
+	// costs is byte-exact replay of the runs concerned.
+	for i, m := range det.resultMismatch {
+		if i < 3 {
+			fmt.Printf("note: run index %d (%s): %s although schedule and yields are identical - the outcome depends on the process, not on the interleaving; not a C19 matter, replay of such runs is best effort\n", m.index, m.fams, m.detail)
 		}
 	}
+	det.procDependent = len(det.resultMismatch)
+	det.resultMismatch = nil
 	rank := func(k string) int {
 		switch {
 		case strings.HasPrefix(k, "race:"):
 			return 0
-		case strings.HasPrefix(k, "nondeterministic-result:"):
-			return 1
 		case strings.HasPrefix(k, "order-dependence:"):
 			return 2
 		case strings.HasPrefix(k, "panic-mismatch:"):
@@ -1094,20 +1097,6 @@ func main() {
 				fmt.Printf("VIOLATION property=C19 replay=%s\n", path)
 				rc = 1
 				break
-			}
-			continue
-		}
-		if strings.HasPrefix(k, "nondeterministic-result:") {
-			for _, m := range det.resultMismatch {
-				if "nondeterministic-result:"+m.fams == k {
-					path := filepath.Join(outDir, "replays", "C19-"+sanitize(k)+".json")
-					os.MkdirAll(filepath.Dir(path), 0o755)
-					os.WriteFile(path, m.plan, 0o644)
-					fmt.Printf("C19 violated: results differ between two executions of the same seed and schedule (run index %d): %s\n", m.index, m.detail)
-					fmt.Printf("VIOLATION property=C19 replay=%s\n", path)
-					rc = 1
-					break
-				}
 			}
 			continue
 		}
@@ -1340,6 +1329,14 @@ func coldOrderCheck(bin string, seed uint64, tier string, recs []Record, jobs []
 						if a == 0 || b == 0 || a == b {
 							continue
 						}
+						// control: six more fresh processes, three in the original task order and
+						// three in reverse. Only "stable in each order, different between the orders" is
+						// order dependence; anything else is an outcome that varies by itself
+						// between processes, which C19 says nothing about.
+						if !coldConfirm(bin, seed, tier, idx, t, o) {
+							mu.Unlock()
+							goto next
+						}
 						var plan map[string]interface{}
 						json.Unmarshal(cold.Plan, &plan)
 						name := "?"
@@ -1367,6 +1364,29 @@ func coldOrderCheck(bin string, seed uint64, tier string, recs []Record, jobs []
 	return out, checked
 }
 
+// coldConfirm re-executes run idx in six more fresh processes, three times in the
+// original task order and three times in reverse, and reports whether operation (t,o) is stable in
+// each order and differs between the orders. (The main exploration's digest is only
+// the trigger: there the library was first touched inside the simulation.)
+func coldConfirm(bin string, seed uint64, tier string, idx, t, o int) bool {
+	get := func(extra ...string) uint64 {
+		args := append([]string{"-seed", strconv.FormatUint(seed, 10), "-tier", tier,
+			"-from", strconv.Itoa(idx), "-to", strconv.Itoa(idx + 1), "-coldorder"}, extra...)
+		r := runWorker(bin, "coldc", args, 2, 120*time.Second)
+		if r.hung || r.err != nil || len(r.recs) == 0 {
+			return 0
+		}
+		d := r.recs[0].BaseDigests
+		if t >= len(d) || o >= len(d[t]) {
+			return 0
+		}
+		return d[t][o]
+	}
+	f1, f2, f3 := get("-coldfwd"), get("-coldfwd"), get("-coldfwd")
+	r1, r2, r3 := get(), get(), get()
+	return f1 != 0 && r1 != 0 && f1 == f2 && f2 == f3 && r1 == r2 && r2 == r3 && f1 != r1
+}
+
 // ---- determinism self-test ----
 
 type detMismatch struct {
@@ -1381,6 +1401,7 @@ type detResult struct {
 	executions     int
 	schedMismatch  string
 	resultMismatch []detMismatch
+	procDependent  int // runs whose outcome differs between processes under one schedule (note, not a violation)
 }
 
 func selfTest(bin string, seed uint64, tier string, recs []Record, jobs [][2]int, n int) detResult {
